@@ -26,7 +26,10 @@ KINDS = [
     ("var {n}: sampler;", "RKSampler"), ("var {n}: sampler_comparison;", "RKSampler"),
 ]
 NAMES = ["camera", "lights", "tex", "smp", "data", "out_buf", "params", "Δ", "x", "y", "albedo", "normal_map",
-         "shadow", "env", "weights", "indices", "u_time", "cfg", "bones", "dst", "src", "a", "b", "c", "d", "e"]
+         "shadow", "env", "weights", "indices", "u_time", "cfg", "bones", "dst", "src", "a", "b", "c", "d", "e",
+         # names a case conversion would change or merge: the field must be named exactly like the variable
+         "baseColor", "lightDir", "light_dir", "LightDir", "tex2D", "Tex", "TEX", "uTime", "_private", "x1", "X1",
+         "normalMap", "HDR", "rgbaOut", "gr\u00f6\u00dfe"]
 
 
 def render(decls, rng):
